@@ -42,6 +42,15 @@ class HarnessError(Exception):
     pass
 
 
+class SlowViolation(BaseException):
+    """A violation on a case that takes seconds to run (typically runaway recursion in the
+    library): reported as found, without Hypothesis' shrinking (hundreds of re-executions)."""
+
+    def __init__(self, v):
+        super().__init__(str(v))
+        self.v = v
+
+
 class Known:
     """known_findings.json: list of entries
     {"property","bucket","status":"open"|"fixed","what","commit"?, "repro": {"facet", "case"}}"""
@@ -227,10 +236,14 @@ def run_shard(pid, facet: Facet, tier, seed, shard, nshards) -> dict:
         rec = Recorder(stats, known, counting)
         if counting:
             stats.cases += 1
+        t_case = time.time()
         facet.run(case, rec)
         bad = rec.unlisted()
         if bad:
-            raise PropertyViolation(bad[0][0], bad[0][1], case)
+            v = PropertyViolation(bad[0][0], bad[0][1], case)
+            if time.time() - t_case > 4.0 and not facet.enumerative:
+                raise SlowViolation(v)
+            raise v
 
     if facet.enumerative:
         try:
@@ -251,6 +264,10 @@ def run_shard(pid, facet: Facet, tier, seed, shard, nshards) -> dict:
         try:
             test()
         except PropertyViolation as v:
+            stats.violations.append({"bucket": v.bucket, "message": v.message, "case": to_jsonable(v.case)})
+        except SlowViolation as sv:
+            v = sv.v
+            stats.notes.append("violation on a slow case: reported unshrunk")
             stats.violations.append({"bucket": v.bucket, "message": v.message, "case": to_jsonable(v.case)})
         except BaseException as e:  # noqa: BLE001
             if isinstance(e, (KeyboardInterrupt, SystemExit)):
